@@ -212,6 +212,10 @@ pub struct GenCfg {
     /// directed inheritance: thread 0 takes eight guards and exits; the others start with a write
     /// (which takes a node but no fast slot) and then load
     pub inherit: bool,
+    /// directed address reuse under a compare_and_swap whose `current` is a guard given by value:
+    /// thread 0 loads and compare-and-swaps with that guard, the others keep storing fresh values
+    /// (each store frees the value before, whose address the next fresh value takes)
+    pub casv: bool,
 }
 
 /// Type-directed generation: registers are tracked abstractly per thread so that most operations
@@ -258,6 +262,25 @@ pub fn generate(rng: &mut Rng, cfg: &GenCfg) -> Program {
                 } else {
                     ops.push(Op::LoadFull { c, h: hbase });
                     ops.push(Op::DropH { h: hbase });
+                }
+            }
+            threads.push(ops);
+            continue;
+        }
+        if cfg.casv {
+            if t == 0 {
+                for k in 0..rng.range(2, 5) {
+                    ops.push(Op::Load { c: 0, g: gbase + k });
+                    ops.push(Op::New { h: hbase + 3, val: next_val * 100 });
+                    next_val += 1;
+                    ops.push(Op::CasV { c: 0, cur: gbase + k, new: hbase + 3, g: gbase + 8 + k });
+                    ops.push(Op::DropG { g: gbase + 8 + k });
+                }
+            } else {
+                for _ in 0..rng.range(2, 5) {
+                    ops.push(Op::New { h: hbase + 1, val: next_val * 100 });
+                    next_val += 1;
+                    ops.push(Op::Store { c: 0, h: hbase + 1 });
                 }
             }
             threads.push(ops);
